@@ -1,7 +1,686 @@
-/- C02 — statements under construction -/
-import AgpTpf.Model.Remap
+/-
+  C02 — Curated layout follows the Pretext edits to within three texel widths.
+
+  Python: `BuildAssembly.remap_to_input_assembly` (build_assembly.py), `OverlapResult` (overlap_result.py),
+  `OverhangPremise` / `OverhangResolver` (build_utils.py).  Model: `Model/Lookup.lean`, `Model/Remap.lean`,
+  constant `Gen.improvesGuardFactor` (= −3, regenerated from the source).
+
+  The FULL property (`remap_follows_script`, stated as a commented goal at the end of this file) quantifies over a
+  formal model of the edit scripts PretextView can produce and needs a long geometric induction over the resolver loop;
+  it is NOT proved here.  What IS proved, each at full strength (no `_partial` theorem), are the seven
+  MECHANISMS the margin `3 × (1 + ⌊bp/texel⌋)` rests on.  With `err = 1 + ⌊bp/texel⌋` (M1) the argument is:
+
+    * a Pretext coordinate is off by less than one texel < `err` bases from the base the curator meant;
+    * right after the lookup a terminal row is thrown away only when it sticks out by more than `err` AND shares fewer
+      than `err` bases with the bait (M2) — so a row holding `≥ err` bases of the piece survives;
+    * a contig shared by two pieces is taken away from one of them only by the sub-texel rule (both shares `< err`) or
+      when this `improves` that piece, which requires that the bait is left uncovered by LESS than `3·err` bases (M3, M4);
+      at most one holder loses it per round, never all (M4);
+    * every other shared contig is CUT, exactly at the Pretext coordinate (M5), the pieces in contig order with the
+      contig's own two ends kept (M7), tiling the contig (C01 `cut_fragments_tiles`);
+    * a piece is written out reversed with strands negated iff its Pretext orientation is `-` (M6).
+  Hence what a piece can lose or gain lies within `3·err` of its two ends.
+
+  Where each mechanism is proved (helper files `Proofs/C02*.lean`):
+    M1  `err_length_of_text`, `err_length_of_text_iff`, `err_length_of_number`      — Proofs/C02Err.lean
+    M2  `trim_large_cases`, `trim_large_guard_start`, `trim_large_guard_end`,
+        `first_row_survives`, `last_row_survives`, `single_row_survives`,
+        `single_row_long_bait_kept`                                                  — Proofs/C02Trim.lean
+    M3  `improves_guard`, `improves_false_of_deep`, `improves_value`                  — Proofs/C02Fix.lean
+    M4  `two_premise_rule`, `general_rule`, `fix_one_at_most_one`,
+        `fix_one_applied_count`, `fix_touches_one_result`                            — Proofs/C02Fix.lean
+    M5  `cut_at_bait_start`, `cut_at_bait_end`                                       — Proofs/C02Trim.lean (+ C18 `trimFragment_spec`)
+    M6  `to_scaffold_orientation`, `to_scaffold_plus`, `to_scaffold_minus`           — Proofs/C02Trim.lean
+    M7  `cut_visits_in_contig_order`, `cut_keeps_order`, `cut_pieces`                — Proofs/C02Cut.lean (+ C01 `cut_fragments_tiles`)
+
+  FINDING (outside C02's quantifier, which has forward or reverse input contigs only): an input contig whose AGP
+  orientation is `?` (strand 0) and which has to be cut between two Pretext pieces makes `cut_fragments` raise
+  ValueError — `fragment_start_if_trimmed` and `trim_fragment` treat strand 0 like `-` (their `else` branch) while
+  `cut_fragments` swaps keep_start/keep_end only for strand −1.  See `strand0_cut_fails` below (reproduced on the real
+  code: input `s 1 100 1 W c 1 100 ?`, Pretext pieces `s:1-40`, `s:41-100`).
+-/
+import AgpTpf.Proofs.C02Err
+import AgpTpf.Proofs.C02Trim
+import AgpTpf.Proofs.C02Fix
+import AgpTpf.Proofs.C02Cut
+import AgpTpf.Properties.C01
 namespace AgpTpf.C02
-open AgpTpf
-theorem appendRows_nil (rows : List Row) (g : Option Gap) : Scaffold.appendRows [] rows g = rows := by
-  cases g <;> simp [Scaffold.appendRows]
+open AgpTpf OverlapResult
+open AgpTpf.C01 (cutOrder cutSubs coverCount)
+
+/-! ## M1 — the error length `1 + ⌊bp per texel⌋` -/
+
+/-- `errLengthOfText` on a text of the shape `ip` (digits, non-empty) or `ip.fr` (digits around one dot, not both
+    empty) is `1 + value(ip)`, i.e. `1 + ⌊x⌋` for the decimal number `x` the text denotes. -/
+theorem err_length_of_text {t ip fr : Str} (h : DecimalShape t ip fr) :
+    errLengthOfText t = .ok (1 + (digitsVal 0 ip : Int)) :=
+  errLength_of_shape h
+
+/-- … and it fails (ValueError, like `float()`) exactly on the texts that are not of that shape. -/
+theorem err_length_of_text_iff (t : Str) :
+    ((∃ v, errLengthOfText t = .ok v) ↔ ∃ ip fr, DecimalShape t ip fr) ∧
+    (errLengthOfText t = .error .value ↔ ¬ ∃ ip fr, DecimalShape t ip fr) ∧
+    (∀ e, errLengthOfText t = .error e → e = .value) := by
+  rcases errLength_cases t with ⟨fr, hs⟩ | ⟨hn, he⟩
+  · have hv := errLength_of_shape hs
+    refine ⟨⟨fun _ => ⟨_, fr, hs⟩, fun _ => ⟨_, hv⟩⟩, ⟨fun h => ?_, fun h => absurd ⟨_, fr, hs⟩ h⟩, fun e h => ?_⟩
+    · rw [hv] at h; cases h
+    · rw [hv] at h; cases h
+  · refine ⟨⟨fun ⟨v, h⟩ => ?_, fun h => absurd h hn⟩, ⟨fun _ => hn, fun _ => he⟩, fun e h => ?_⟩
+    · rw [he] at h; cases h
+    · rw [he] at h; cases h; rfl
+
+/-- the shape spelled out -/
+theorem decimalShape_iff (t ip fr : Str) :
+    DecimalShape t ip fr ↔
+      (∀ c ∈ ip, isDigit c = true) ∧ (∀ c ∈ fr, isDigit c = true) ∧
+      ((t = ip ∧ fr = [] ∧ ip ≠ []) ∨ (t = ip ++ '.' :: fr ∧ (ip ≠ [] ∨ fr ≠ []))) := Iff.rfl
+
+/-- in terms of numbers: the text of `n` or of `n.fr` gives `1 + n` -/
+theorem err_length_of_number (n : Nat) (fr : Str) (hf : ∀ c ∈ fr, isDigit c = true) :
+    errLengthOfText (natToStr n) = .ok (1 + (n : Int)) ∧
+    errLengthOfText (natToStr n ++ '.' :: fr) = .ok (1 + (n : Int)) := by
+  have hd := allDigits_natToStr n
+  have hne := C05.natToStr_ne_nil n
+  constructor
+  · rw [errLength_int hd hne, C05.digitsVal_natToStr]
+  · rw [errLength_frac hd hf (Or.inl hne), C05.digitsVal_natToStr]
+
+example : DecimalShape "2300.000000".toList "2300".toList "000000".toList := by
+  refine ⟨(allDigits_iff_all _).mpr (by decide), (allDigits_iff_all _).mpr (by decide), Or.inr ⟨by decide, Or.inl (by decide)⟩⟩
+example : errLengthOfText "2300.000000".toList = .ok 2301 := by decide
+example : errLengthOfText "2300.999".toList = .ok 2301 ∧ errLengthOfText "17".toList = .ok 18 ∧
+    errLengthOfText ".5".toList = .ok 1 ∧ errLengthOfText "3.".toList = .ok 4 := by decide
+example : errLengthOfText "1.2.3".toList = .error .value ∧ errLengthOfText ".".toList = .error .value ∧
+    errLengthOfText [] = .error .value ∧ errLengthOfText "1e3".toList = .error .value := by decide
+
+/-! ## concrete data for the non-vacuity examples -/
+
+def fr (oid : Nat) (n : String) (s e st : Int) : Fragment :=
+  { oid := oid, name := n.toList, start := s, stop := e, strand := st }
+def gp (n : Int) : Row := .gap ⟨n, "scaffold".toList⟩
+def mkBait (s e st : Int) : Fragment :=
+  { name := "s".toList, start := s, stop := e, strand := st, tags := ["Painted".toList] }
+
+def fa : Fragment := fr 1 "a" 1 100 1
+def fb : Fragment := fr 2 "b" 1 50 (-1)
+def fc : Fragment := fr 3 "c" 1 40 1
+/-- scaffold `s`: a:1-100(+) at 1..100, gap 101..110, b:1-50(−) at 111..160, c:1-40(+) at 161..200 -/
+def src : List Row := [.frag fa, gp 10, .frag fb, .frag fc]
+
+/-- lookup of `s:98-160`: rows a, gap, b — `a` sticks out by 97 and shares 3 bases with the bait -/
+def oA : OverlapResult := { bait := mkBait 98 160 1, start := 1, stop := 160, rows := [.frag fa, gp 10, .frag fb], name := "matches".toList }
+theorem lookupA : findOverlaps src (mkBait 98 160 1) = .ok (some oA) := by decide +kernel
+/-- lookup of `s:90-160`: same rows, `a` shares 11 bases -/
+def oB : OverlapResult := { oA with bait := mkBait 90 160 1 }
+theorem lookupB : findOverlaps src (mkBait 90 160 1) = .ok (some oB) := by decide +kernel
+/-- lookup of `s:1-97`: the single row `a`, end overhang 3 -/
+def oC : OverlapResult := { bait := mkBait 1 97 1, start := 1, stop := 100, rows := [.frag fa], name := "matches".toList }
+theorem lookupC : findOverlaps src (mkBait 1 97 1) = .ok (some oC) := by decide +kernel
+/-- lookup of `s:116-200` as a reversed piece: rows b, c — `b` (minus strand) sticks out by 5 -/
+def oD : OverlapResult := { bait := mkBait 116 200 (-1), start := 111, stop := 200, rows := [.frag fb, .frag fc], name := "matches".toList }
+theorem lookupD : findOverlaps src (mkBait 116 200 (-1)) = .ok (some oD) := by decide +kernel
+/-- lookup of `s:20-170`: all rows; `a` sticks out by 19 at the start, `c` by 30 at the end -/
+def oE : OverlapResult := { bait := mkBait 20 170 1, start := 1, stop := 200, rows := src, name := "matches".toList }
+theorem lookupE : findOverlaps src (mkBait 20 170 1) = .ok (some oE) := by decide +kernel
+
+/-! ## M2 — `trim_large_overhangs` discards a terminal row only under its guard -/
+
+/-- complete case analysis of an accepted `trim_large_overhangs(err)`:
+    either the early return (single row, bait longer than `err`), or: the start is discarded iff `StartGuard o err`
+    (`start_overhang > err ∧ start_row_bait_overlap < err`); if that emptied the result it is returned; otherwise the
+    end of the intermediate result `o1` is discarded iff `EndGuard o1 err`. -/
+theorem trim_large_cases {o o' : OverlapResult} {err : Int} (h : trimLargeOverhangs o err = .ok o') :
+    (EarlyKeep o err ∧ o' = o) ∨
+    (¬ EarlyKeep o err ∧
+      ∃ o1, ((StartGuard o err ∧ discardStart o = .ok o1) ∨ (¬ StartGuard o err ∧ o1 = o)) ∧
+        ((StartGuard o err ∧ o1.rows = [] ∧ o' = o1) ∨
+         (¬ (StartGuard o err ∧ o1.rows = []) ∧
+            ((EndGuard o1 err ∧ discardEnd o1 = .ok o') ∨ (¬ EndGuard o1 err ∧ o' = o1))))) :=
+  trimLarge_char h
+
+theorem guards_iff (o : OverlapResult) (err : Int) :
+    (EarlyKeep o err ↔ o.rows.length = 1 ∧ o.bait.length > err) ∧
+    (StartGuard o err ↔ o.startOverhang > err ∧ ∃ ov, o.startRowBaitOverlap = .ok ov ∧ ov < err) ∧
+    (EndGuard o err ↔ o.endOverhang > err ∧ ∃ ov, o.endRowBaitOverlap = .ok ov ∧ ov < err) :=
+  ⟨Iff.rfl, Iff.rfl, Iff.rfl⟩
+
+/-- the first row is discarded ONLY IF it was not the early return and `start_overhang > err ∧ start_row_bait_overlap < err`;
+    in every other case the result is unchanged or only `discard_end()` ran (under its own guard) -/
+theorem trim_large_guard_start {o o' : OverlapResult} {err : Int} (h : trimLargeOverhangs o err = .ok o') :
+    (¬ EarlyKeep o err ∧ StartGuard o err ∧
+      ∃ o1, discardStart o = .ok o1 ∧ (o' = o1 ∨ (o1.rows ≠ [] ∧ EndGuard o1 err ∧ discardEnd o1 = .ok o'))) ∨
+    (¬ (¬ EarlyKeep o err ∧ StartGuard o err) ∧
+      (o' = o ∨ (¬ EarlyKeep o err ∧ EndGuard o err ∧ discardEnd o = .ok o'))) :=
+  trimLarge_start h
+
+/-- the last row is discarded ONLY IF it was not the early return and, on the result `o1` left after the start was
+    handled (`o` itself, or `o` with its start discarded and still non-empty), `end_overhang > err ∧
+    end_row_bait_overlap < err`; in every other case the result is unchanged or only `discard_start()` ran -/
+theorem trim_large_guard_end {o o' : OverlapResult} {err : Int} (h : trimLargeOverhangs o err = .ok o') :
+    (¬ EarlyKeep o err ∧
+      ∃ o1, (o1 = o ∨ (StartGuard o err ∧ discardStart o = .ok o1 ∧ o1.rows ≠ [])) ∧
+        EndGuard o1 err ∧ discardEnd o1 = .ok o') ∨
+    (o' = o ∨ (¬ EarlyKeep o err ∧ StartGuard o err ∧ discardStart o = .ok o')) := by
+  rcases trimLarge_start h with ⟨he, hg, o1, hd, h2⟩ | ⟨_, h2⟩
+  · rcases h2 with rfl | ⟨hne, hg1, hd1⟩
+    · exact Or.inr (Or.inr ⟨he, hg, hd⟩)
+    · exact Or.inl ⟨he, o1, Or.inr ⟨hg, hd, hne⟩, hg1, hd1⟩
+  · rcases h2 with rfl | ⟨he, hg, hd⟩
+    · exact Or.inr (Or.inl rfl)
+    · exact Or.inl ⟨he, o, Or.inl rfl, hg, hd⟩
+
+/-- consequently: a first row sharing `≥ err` bases with the bait survives, with `start` unchanged
+    (result with ≥ 2 rows whose first row is a fragment, as the C18 invariant guarantees) -/
+theorem first_row_survives {o o' : OverlapResult} {err ov : Int} {f : Fragment} {t : List Row}
+    (hr : o.rows = .frag f :: t) (ht : t ≠ [])
+    (hov : o.startRowBaitOverlap = .ok ov) (hge : err ≤ ov)
+    (h : trimLargeOverhangs o err = .ok o') :
+    (∃ t', o'.rows = .frag f :: t') ∧ o'.start = o.start ∧
+      (o' = o ∨ (EndGuard o err ∧ discardEnd o = .ok o')) :=
+  trimLarge_first_survives hr ht hov hge h
+
+/-- symmetric: a last row sharing `≥ err` bases with the bait survives, with `stop` unchanged -/
+theorem last_row_survives {o o' : OverlapResult} {err ov : Int} {f : Fragment} {t : List Row}
+    (hr : o.rows = t ++ [.frag f]) (ht : t ≠ [])
+    (hov : o.endRowBaitOverlap = .ok ov) (hge : err ≤ ov)
+    (h : trimLargeOverhangs o err = .ok o') :
+    (∃ t', o'.rows = t' ++ [.frag f]) ∧ o'.stop = o.stop ∧
+      (o' = o ∨ (StartGuard o err ∧ discardStart o = .ok o')) :=
+  trimLarge_last_survives hr ht hov hge h
+
+/-- a single row (span = the row, C18 invariant (1)) sharing `≥ err` bases with the bait: nothing happens -/
+theorem single_row_survives {o o' : OverlapResult} {err ov : Int} {r : Row}
+    (hr : o.rows = [r]) (hspan : o.stop - o.start + 1 = r.length)
+    (hov : o.startRowBaitOverlap = .ok ov) (hge : err ≤ ov)
+    (h : trimLargeOverhangs o err = .ok o') : o' = o :=
+  trimLarge_single_survives hr hspan hov hge h
+
+/-- a single row is never discarded when `bait.length > err` (whatever the overhangs) -/
+theorem single_row_long_bait_kept {o : OverlapResult} {err : Int} (h1 : o.rows.length = 1) (h2 : o.bait.length > err) :
+    trimLargeOverhangs o err = .ok o :=
+  trimLarge_single_long h1 h2
+
+/-- `a` shares 3 < 5 bases and sticks out by 97 > 5: discarded, with the gap behind it; `b` stays -/
+def oA' : OverlapResult := { oA with start := 111, rows := [.frag fb] }
+example : trimLargeOverhangs oA 5 = .ok oA' := by decide
+example : ¬ EarlyKeep oA 5 ∧ StartGuard oA 5 ∧ discardStart oA = .ok oA' :=
+  ⟨(by decide : ¬ (oA.rows.length = 1 ∧ oA.bait.length > 5)), ⟨by decide, 3, by decide, by decide⟩, by decide⟩
+/-- `a` shares 11 ≥ 5 bases: it survives (hypotheses of `first_row_survives`), although it sticks out by 89 -/
+example : oB.rows = .frag fa :: [gp 10, .frag fb] ∧ oB.startRowBaitOverlap = .ok 11 ∧ oB.startOverhang = 89 ∧
+    trimLargeOverhangs oB 5 = .ok oB := by decide
+example : (∃ t', oB.rows = .frag fa :: t') ∧ oB.start = oB.start ∧ (oB = oB ∨ (EndGuard oB 5 ∧ discardEnd oB = .ok oB)) :=
+  first_row_survives (o := oB) (t := [gp 10, .frag fb]) rfl (by decide) (show oB.startRowBaitOverlap = .ok 11 by decide)
+    (by decide) (by decide)
+/-- last row: `c` shares 10 ≥ 5 bases of `s:20-170` and sticks out by 30 -/
+example : oE.rows = [.frag fa, gp 10, .frag fb] ++ [.frag fc] ∧ oE.endRowBaitOverlap = .ok 10 ∧ oE.endOverhang = 30 ∧
+    trimLargeOverhangs oE 5 = .ok oE := by decide
+/-- with `err = 12` the same `c` (10 < 12 shared, 30 > 12 out) is discarded at the end: `EndGuard` -/
+example : EndGuard oE 12 ∧ trimLargeOverhangs oE 12 = .ok { oE with stop := 160, rows := [.frag fa, gp 10, .frag fb] } :=
+  ⟨⟨by decide, 10, by decide, by decide⟩, by decide⟩
+/-- single row under a long bait -/
+example : oC.rows.length = 1 ∧ oC.bait.length > 5 ∧ trimLargeOverhangs oC 5 = .ok oC := by decide
+example : oC.rows = [.frag fa] ∧ oC.stop - oC.start + 1 = (Row.frag fa).length ∧ oC.startRowBaitOverlap = .ok 97 := by decide
+
+/-! ## M3 — `improves` and its guard against deep negative overhangs -/
+
+/-- the factor in the source is −3 -/
+theorem improves_guard_factor : Gen.improvesGuardFactor = -3 := by decide
+
+/-- `improves(err) = True` implies: the result has ≥ 2 rows, the what-if overhang `a` (`overhang_if_applied`) exists and is
+    `> −3·err`, and the error delta `|a| − |current overhang|` is negative -/
+theorem improves_guard {p : Premise} {store : List Res} {err : Int} (h : p.improves store err = .ok true) :
+    2 ≤ (getRes store p.sid).rows.length ∧
+    ∃ a, p.overhangIfApplied store = .ok a ∧ a > -3 * err ∧
+      p.delta store = .ok (iabs a - iabs (Premise.currentOverhang p store)) ∧
+      iabs a - iabs (Premise.currentOverhang p store) < 0 := by
+  obtain ⟨h1, a, ha, hd, hg⟩ := improves_true h
+  rw [improves_guard_factor] at hg
+  exact ⟨h1, a, ha, hg, delta_eq ha, hd⟩
+
+/-- the usable contrapositive: if removing the terminal row would leave the bait uncovered by `≥ 3·err` bases
+    (overhang `≤ −3·err`) the premise does not improve — the contig will be cut instead -/
+theorem improves_false_of_deep {p : Premise} {store : List Res} {err a : Int}
+    (ha : p.overhangIfApplied store = .ok a) (hdeep : a ≤ -3 * err) : p.improves store err = .ok false := by
+  rw [improves_eq ha, improves_guard_factor]
+  congr 1
+  rw [decide_eq_false_iff_not]
+  intro ⟨_, _, h3⟩
+  omega
+
+/-- the exact value of `improves` (it never raises on a non-empty result) -/
+theorem improves_value {p : Premise} {store : List Res} {err : Int} (hne : (getRes store p.sid).rows ≠ []) :
+    ∃ a, p.overhangIfApplied store = .ok a ∧
+      p.improves store err =
+        .ok (decide ((getRes store p.sid).rows.length ≠ 1 ∧
+                     iabs a - iabs (Premise.currentOverhang p store) < 0 ∧ a > -3 * err)) := by
+  obtain ⟨a, ha⟩ := improves_ok_of_rows hne
+  refine ⟨a, ha, ?_⟩
+  rw [improves_eq ha, improves_guard_factor]
+
+/-- what `currentOverhang`, `overhangIfApplied` and `iabs` are -/
+theorem premise_figures (p : Premise) (store : List Res) :
+    (p.kind = .start → Premise.currentOverhang p store = (getRes store p.sid).startOverhang ∧
+        p.overhangIfApplied store = (getRes store p.sid).overhangIfStartRemoved) ∧
+    (p.kind = .stop → Premise.currentOverhang p store = (getRes store p.sid).endOverhang ∧
+        p.overhangIfApplied store = (getRes store p.sid).overhangIfEndRemoved) ∧
+    (∀ x : Int, iabs x = if x < 0 then -x else x) := by
+  refine ⟨fun h => ?_, fun h => ?_, fun _ => rfl⟩ <;>
+    simp [Premise.currentOverhang, Premise.overhangIfApplied, h]
+
+def pA : Premise := { kind := .start, sid := 0, fragment := fa }
+/-- removing `a` from `oA` (bait `s:98-160`, err 5): overhang 97 → −13 > −15, delta −84: improves -/
+example : pA.overhangIfApplied [{ o := oA }] = .ok (-13) ∧ pA.improves [{ o := oA }] 5 = .ok true := by decide
+/-- removing `a` from `oB` (bait `s:90-160`, err 5): would leave −21 ≤ −15: does not improve (hypotheses of the contrapositive) -/
+example : pA.overhangIfApplied [{ o := oB }] = .ok (-21) ∧ (-21 : Int) ≤ -3 * 5 ∧ pA.improves [{ o := oB }] 5 = .ok false := by
+  decide
+
+/-! ## M4 — one premise list in `make_fixes`: at most one holder loses the contig -/
+
+/-- Exactly two premises.  The fix is made by the sub-texel rule only if BOTH bait overlaps are `< err`; it is then
+    applied to the premise with the strictly smaller overlap, on a tie to the second.  In every other case the
+    general rule decides (`generalRule` is the `elif len(premises) > 1` block verbatim, see `general_rule`). -/
+theorem two_premise_rule {err : Int} {store store' : List Res} {fixes fixes' : List Premise} {frst scnd : Premise}
+    (h : fixOne err (store, fixes) [frst, scnd] = .ok (store', fixes')) :
+    ∃ fo, frst.baitOverlap store = .ok fo ∧
+      ((fo < err ∧ ∃ so, scnd.baitOverlap store = .ok so ∧ so < err ∧
+          (if fo < so then frst else scnd).apply store = .ok store' ∧
+          fixes' = fixes ++ [if fo < so then frst else scnd]) ∨
+       ((err ≤ fo ∨ ∃ so, scnd.baitOverlap store = .ok so ∧ err ≤ so) ∧
+          generalRule err store fixes [frst, scnd] = .ok (store', fixes'))) := by
+  rw [fixOne_two] at h
+  cases hfo : frst.baitOverlap store with
+  | error e => rw [hfo] at h; cases h
+  | ok fo =>
+    rw [hfo] at h
+    simp only [bind, Except.bind] at h
+    refine ⟨fo, rfl, ?_⟩
+    by_cases h1 : fo < err
+    · rw [if_pos h1] at h
+      cases hso : scnd.baitOverlap store with
+      | error e => rw [hso] at h; cases h
+      | ok so =>
+        rw [hso] at h
+        simp only at h
+        by_cases h2 : so < err
+        · rw [if_pos h2] at h
+          refine Or.inl ⟨h1, so, rfl, h2, ?_⟩
+          by_cases h3 : fo < so
+          · rw [if_pos h3] at h ⊢
+            cases ha : frst.apply store with
+            | error e => rw [ha] at h; cases h
+            | ok s =>
+              rw [ha] at h
+              simp only [pure, Except.pure, Except.ok.injEq, Prod.mk.injEq] at h
+              exact ⟨by rw [h.1], h.2.symm⟩
+          · rw [if_neg h3] at h ⊢
+            cases ha : scnd.apply store with
+            | error e => rw [ha] at h; cases h
+            | ok s =>
+              rw [ha] at h
+              simp only [pure, Except.pure, Except.ok.injEq, Prod.mk.injEq] at h
+              exact ⟨by rw [h.1], h.2.symm⟩
+        · rw [if_neg h2] at h
+          exact Or.inr ⟨Or.inr ⟨so, rfl, by omega⟩, h⟩
+    · rw [if_neg h1] at h
+      exact Or.inr ⟨Or.inl (by omega), h⟩
+
+/-- any other number of premises goes straight to the general rule -/
+theorem not_two_premises (err : Int) (store : List Res) (fixes ps : List Premise) (h : ps.length ≠ 2) :
+    fixOne err (store, fixes) ps = generalRule err store fixes ps :=
+  fixOne_other err store fixes ps h
+
+/-- The general rule, whenever it returns: nothing changes, or there are ≥ 2 premises and exactly the premise `bst`
+    with the smallest error delta (first in the stable sort by delta) is applied — and that only if `bst` improves and
+    the next one, `nxt`, does not. -/
+theorem general_rule {err : Int} {store store' : List Res} {fixes fixes' ps : List Premise}
+    (h : generalRule err store fixes ps = .ok (store', fixes')) :
+    (store' = store ∧ fixes' = fixes) ∨
+    (2 ≤ ps.length ∧ ∃ bst nxt rest, sortPremsByDelta store ps = .ok (bst :: nxt :: rest) ∧
+      (bst :: nxt :: rest).Perm ps ∧
+      (∃ db, bst.delta store = .ok db ∧ ∀ q ∈ ps, ∃ dq, q.delta store = .ok dq ∧ db ≤ dq) ∧
+      bst.improves store err = .ok true ∧ nxt.improves store err = .ok false ∧
+      bst.apply store = .ok store' ∧ fixes' = fixes ++ [bst]) := by
+  rcases generalRule_ok h with h0 | ⟨hl, bst, nxt, rest, hs, hb, hn, ha, hf⟩
+  · exact Or.inl h0
+  · exact Or.inr ⟨hl, bst, nxt, rest, hs, (sortPrems_spec hs).1, (sortPrems_head_min hs).2.2, hb, hn, ha, hf⟩
+
+/-- In EVERY case: `fixOne` applies no premise, or exactly one premise of the list — and none when the list has fewer
+    than two elements. -/
+theorem fix_one_at_most_one {err : Int} {store store' : List Res} {fixes fixes' ps : List Premise}
+    (h : fixOne err (store, fixes) ps = .ok (store', fixes')) :
+    (store' = store ∧ fixes' = fixes) ∨
+    (2 ≤ ps.length ∧ ∃ p ∈ ps, p.apply store = .ok store' ∧ fixes' = fixes ++ [p]) := by
+  have gen : generalRule err store fixes ps = .ok (store', fixes') →
+      (store' = store ∧ fixes' = fixes) ∨
+      (2 ≤ ps.length ∧ ∃ p ∈ ps, p.apply store = .ok store' ∧ fixes' = fixes ++ [p]) := by
+    intro hg
+    rcases generalRule_ok hg with h0 | ⟨hl, bst, nxt, rest, hs, _, _, ha, hf⟩
+    · exact Or.inl h0
+    · exact Or.inr ⟨hl, bst, (sortPrems_head_min hs).1, ha, hf⟩
+  by_cases h2 : ps.length = 2
+  · obtain ⟨frst, scnd, rfl⟩ : ∃ a b, ps = [a, b] := by
+      match ps, h2 with
+      | [a, b], _ => exact ⟨a, b, rfl⟩
+    obtain ⟨fo, _, hc⟩ := two_premise_rule h
+    rcases hc with ⟨_, so, _, _, ha, hf⟩ | ⟨_, hg⟩
+    · refine Or.inr ⟨by simp, _, ?_, ha, hf⟩
+      split <;> simp
+    · exact gen hg
+  · rw [fixOne_other err store fixes ps h2] at h
+    exact gen h
+
+/-- the count form: the premises applied are `≤ 1` and `≤ length − 1` many, all from the list — so a contig shared by
+    `n` results is never removed from all of them by one `fixOne` -/
+theorem fix_one_applied_count {err : Int} {store store' : List Res} {fixes fixes' ps : List Premise}
+    (h : fixOne err (store, fixes) ps = .ok (store', fixes')) :
+    ∃ applied : List Premise, fixes' = fixes ++ applied ∧ applied.length ≤ 1 ∧ applied.length ≤ ps.length - 1 ∧
+      (∀ p ∈ applied, p ∈ ps) ∧ (applied = [] → store' = store) := by
+  rcases fix_one_at_most_one h with ⟨h1, h2⟩ | ⟨hl, p, hp, _, hf⟩
+  · exact ⟨[], by simp [h2], by simp, by simp, by simp, fun _ => h1⟩
+  · refine ⟨[p], hf, by simp, by simp; omega, by simpa using hp, by simp⟩
+
+/-- and an applied premise rewrites only the one result it points at (by `discard_start` / `discard_end`): every
+    other holder keeps all its rows -/
+theorem fix_touches_one_result {p : Premise} {store store' : List Res} (h : p.apply store = .ok store') :
+    store'.length = store.length ∧ (∀ i, i ≠ p.sid → store'[i]? = store[i]?) ∧
+    ∃ o', (match p.kind with
+            | .start => (getRes store p.sid).discardStart
+            | .stop => (getRes store p.sid).discardEnd) = .ok o' ∧
+          store' = store.set p.sid { store.getD p.sid default with o := o' } :=
+  apply_only_touches h
+
+/-- contig `a` is held by `oC` (piece `s:1-97`, 97 bases of it) and `oA` (piece `s:98-160`, 3 bases): the first overlap is
+    `≥ err`, so the general rule decides; `oA`'s premise has the smaller delta and improves, `oC`'s (single row) does not:
+    `a` is removed from `oA` only -/
+def storeAC : List Res := [{ o := oC, added := true }, { o := oA, added := true }]
+def pC0 : Premise := { kind := .start, sid := 0, fragment := fa }
+def pA1 : Premise := { kind := .start, sid := 1, fragment := fa }
+example : pC0.baitOverlap storeAC = .ok 97 ∧ pA1.baitOverlap storeAC = .ok 3 ∧
+    fixOne 5 (storeAC, []) [pC0, pA1] = .ok ([{ o := oC, added := true }, { o := oA', added := true }], [pA1]) := by
+  decide
+example : sortPremsByDelta storeAC [pC0, pA1] = .ok [pA1, pC0] ∧ pA1.improves storeAC 5 = .ok true ∧
+    pC0.improves storeAC 5 = .ok false := by decide
+
+/-- sub-texel rule: the 4-base contig `y` lies across the boundary of the pieces `t:1-52` / `t:53-104` (2 bases in each,
+    err 5): both overlaps `< err`, tie → the SECOND premise is applied; with pieces `t:1-51` / `t:52-104` (1 and 3
+    bases) → the first -/
+def fx : Fragment := fr 11 "x" 1 50 1
+def fy : Fragment := fr 12 "y" 1 4 1
+def fz : Fragment := fr 13 "z" 1 50 1
+def src2 : List Row := [.frag fx, .frag fy, .frag fz]
+def mkBaitT (s e : Int) : Fragment := { name := "t".toList, start := s, stop := e, strand := 1, tags := ["Painted".toList] }
+def oXY (e : Int) : OverlapResult := { bait := mkBaitT 1 e, start := 1, stop := 54, rows := [.frag fx, .frag fy], name := "matches".toList }
+def oYZ (s : Int) : OverlapResult := { bait := mkBaitT s 104, start := 51, stop := 104, rows := [.frag fy, .frag fz], name := "matches".toList }
+theorem lookupXY : findOverlaps src2 (mkBaitT 1 52) = .ok (some (oXY 52)) ∧ findOverlaps src2 (mkBaitT 1 51) = .ok (some (oXY 51)) := by
+  constructor <;> decide +kernel
+theorem lookupYZ : findOverlaps src2 (mkBaitT 53 104) = .ok (some (oYZ 53)) ∧ findOverlaps src2 (mkBaitT 52 104) = .ok (some (oYZ 52)) := by
+  constructor <;> decide +kernel
+def pY0 : Premise := { kind := .stop, sid := 0, fragment := fy }
+def pY1 : Premise := { kind := .start, sid := 1, fragment := fy }
+example : pY0.baitOverlap [{ o := oXY 52 }, { o := oYZ 53 }] = .ok 2 ∧ pY1.baitOverlap [{ o := oXY 52 }, { o := oYZ 53 }] = .ok 2 ∧
+    fixOne 5 ([{ o := oXY 52 }, { o := oYZ 53 }], []) [pY0, pY1] =
+      .ok ([{ o := oXY 52 }, { o := { oYZ 53 with start := 55, rows := [.frag fz] } }], [pY1]) := by decide
+example : pY0.baitOverlap [{ o := oXY 51 }, { o := oYZ 52 }] = .ok 1 ∧ pY1.baitOverlap [{ o := oXY 51 }, { o := oYZ 52 }] = .ok 3 ∧
+    fixOne 5 ([{ o := oXY 51 }, { o := oYZ 52 }], []) [pY0, pY1] =
+      .ok ([{ o := { oXY 51 with stop := 50, rows := [.frag fx] } }, { o := oYZ 52 }], [pY0]) := by decide
+/-- a single premise: nothing is applied -/
+example : fixOne 5 (storeAC, []) [pA1] = .ok (storeAC, []) := by decide
+
+/-! ## M5 — `trim_fragment` cuts exactly at the Pretext coordinate -/
+
+/-- `f` is the first row.  With `¬ keep_start` and a positive start overhang the result then starts exactly at the
+    bait's start, and the new fragment loses exactly `start_overhang` bases at the side that lies at the result's start:
+    `start` for a plus-strand contig, `end` otherwise.  With `keep_start` (or no positive overhang) nothing moves there. -/
+theorem cut_at_bait_start {o o' : OverlapResult} {f new : Fragment} {t : List Row} {ks ke : Bool} {oid : Nat}
+    (hr : o.rows = .frag f :: t) (h : trimFragment o f ks ke oid = .ok (o', new)) :
+    (ks = false → o.startOverhang > 0 →
+      o'.start = o.bait.start ∧ o'.bait = o.bait ∧
+      (f.strand = 1 → new.start = f.start + o.startOverhang) ∧
+      (f.strand ≠ 1 → new.stop = f.stop - o.startOverhang)) ∧
+    ((ks = true ∨ o.startOverhang ≤ 0) →
+      o'.start = o.start ∧ (f.strand = 1 → new.start = f.start) ∧ (f.strand ≠ 1 → new.stop = f.stop)) := by
+  obtain ⟨d1, hd, h1, h2, h3⟩ := trimFragment_start hr h
+  constructor
+  · intro hk hpos
+    rw [if_pos ⟨hpos, hk⟩] at hd
+    subst hd
+    refine ⟨by rw [h1]; simp only [startOverhang]; omega, h2, fun hs => ?_, fun hs => ?_⟩
+    · rwa [if_pos hs] at h3
+    · rwa [if_neg hs] at h3
+  · intro hk
+    have : d1 = 0 := by
+      rw [hd]; split
+      · rename_i hh; rcases hk with hk | hk
+        · rw [hk] at hh; exact absurd hh.2 (by simp)
+        · omega
+      · rfl
+    subst this
+    refine ⟨by omega, fun hs => ?_, fun hs => ?_⟩
+    · rw [if_pos hs] at h3; omega
+    · rw [if_neg hs] at h3; omega
+
+/-- symmetric at the end: `f` is the last row -/
+theorem cut_at_bait_end {o o' : OverlapResult} {f new : Fragment} {t : List Row} {ks ke : Bool} {oid : Nat}
+    (hr : o.rows = t ++ [.frag f]) (h : trimFragment o f ks ke oid = .ok (o', new)) :
+    (ke = false → o.endOverhang > 0 →
+      o'.stop = o.bait.stop ∧ o'.bait = o.bait ∧
+      (f.strand = 1 → new.stop = f.stop - o.endOverhang) ∧
+      (f.strand ≠ 1 → new.start = f.start + o.endOverhang)) ∧
+    ((ke = true ∨ o.endOverhang ≤ 0) →
+      o'.stop = o.stop ∧ (f.strand = 1 → new.stop = f.stop) ∧ (f.strand ≠ 1 → new.start = f.start)) := by
+  obtain ⟨d2, hd, h1, h2, h3⟩ := trimFragment_end hr h
+  constructor
+  · intro hk hpos
+    rw [if_pos ⟨hpos, hk⟩] at hd
+    subst hd
+    refine ⟨by rw [h1]; simp only [endOverhang]; omega, h2, fun hs => ?_, fun hs => ?_⟩
+    · rwa [if_pos hs] at h3
+    · rwa [if_neg hs] at h3
+  · intro hk
+    have : d2 = 0 := by
+      rw [hd]; split
+      · rename_i hh; rcases hk with hk | hk
+        · rw [hk] at hh; exact absurd hh.2 (by simp)
+        · omega
+      · rfl
+    subst this
+    refine ⟨by omega, fun hs => ?_, fun hs => ?_⟩
+    · rw [if_pos hs] at h3; omega
+    · rw [if_neg hs] at h3; omega
+
+/-- plus strand at the start: piece `s:20-170` cuts `a:1-100` at base 20 (= 1 + 19), result starts at 20 = bait start -/
+example : oE.rows = .frag fa :: [gp 10, .frag fb, .frag fc] ∧ oE.startOverhang = 19 ∧
+    (trimFragment oE fa false false 50).toOption.map (fun r => (r.1.start, r.2.start, r.2.stop)) = some (20, 20, 100) := by
+  decide
+/-- minus strand at the start: piece `s:116-200` cuts `b:1-50(−)` at its END: 50 − 5 = 45 -/
+example : oD.rows = .frag fb :: [.frag fc] ∧ oD.startOverhang = 5 ∧
+    (trimFragment oD fb false false 50).toOption.map (fun r => (r.1.start, r.2.start, r.2.stop)) = some (116, 1, 45) := by
+  decide
+/-- plus strand at the end: `c:1-40` at 161..200 under `s:20-170` keeps 1..10 -/
+example : oE.rows = [.frag fa, gp 10, .frag fb] ++ [.frag fc] ∧ oE.endOverhang = 30 ∧
+    (trimFragment oE fc false false 50).toOption.map (fun r => (r.1.stop, r.2.start, r.2.stop)) = some (170, 1, 10) := by
+  decide
+/-- `keep_start`: nothing moves at the start -/
+example : (trimFragment oE fa true false 50).toOption.map (fun r => (r.1.start, r.2.start, r.2.stop)) = some (1, 1, 100) := by
+  decide
+
+/-! ## M6 — orientation of a piece in the output -/
+
+/-- Pretext orientation `+` (or unknown, 0): the rows as they are -/
+theorem to_scaffold_plus {o : OverlapResult} (h : o.bait.strand ≠ -1) : toScaffoldRows o = o.rows :=
+  toScaffoldRows_plus h
+
+/-- Pretext orientation `−`: the rows in reverse order, every fragment's strand negated, gaps unchanged -/
+theorem to_scaffold_minus {o : OverlapResult} (h : o.bait.strand = -1) :
+    toScaffoldRows o = o.rows.reverse.map Row.reverse ∧
+    (∀ f : Fragment, Row.reverse (.frag f) = .frag { f with strand := -1 * f.strand }) ∧
+    (∀ g : Gap, Row.reverse (.gap g) = .gap g) :=
+  ⟨toScaffoldRows_minus h, fun _ => rfl, fun _ => rfl⟩
+
+/-- both cases at once: output strand = input strand × piece orientation (`orientRow s` multiplies the strand of a
+    fragment row by `s` and leaves everything else, and gap rows, alone); the number of rows is preserved -/
+theorem to_scaffold_orientation {o : OverlapResult} (h : o.bait.strand = 1 ∨ o.bait.strand = -1) :
+    toScaffoldRows o = (if o.bait.strand = -1 then o.rows.reverse else o.rows).map (orientRow o.bait.strand) ∧
+    (toScaffoldRows o).length = o.rows.length ∧
+    (∀ (s : Int) (f : Fragment), orientRow s (.frag f) = .frag { f with strand := f.strand * s }) ∧
+    (∀ (s : Int) (g : Gap), orientRow s (.gap g) = .gap g) :=
+  ⟨toScaffoldRows_orient h, toScaffoldRows_length o, fun _ _ => rfl, fun _ _ => rfl⟩
+
+/-- the gap rows of the output are those of the piece (so the input's internal gaps are carried over) -/
+theorem to_scaffold_gaps (o : OverlapResult) (g : Gap) : Row.gap g ∈ toScaffoldRows o ↔ Row.gap g ∈ o.rows :=
+  C01.gap_mem_toScaffoldRows o g
+
+example : oD.bait.strand = -1 ∧ toScaffoldRows oD = [.frag { fc with strand := -1 }, .frag { fb with strand := 1 }] := by decide
+example : oE.bait.strand = 1 ∧ toScaffoldRows oE = src := by decide
+
+/-! ## M7 — `cut_fragments`: holders in contig order, the contig's own ends kept -/
+
+/-- the holders are visited in ascending `fragment_start_if_trimmed` (stable sort, so a permutation of the holders) -/
+theorem cut_visits_in_contig_order {b : Build} {fnd : Found} {ordered : List Nat} (h : cutOrder b fnd = .ok ordered) :
+    ordered.Perm fnd.scaffolds ∧
+    ∃ keyed : List (Int × Nat), keyed.map (·.2) = ordered ∧
+      (∀ kp ∈ keyed, (getRes b.store kp.2).fragmentStartIfTrimmed fnd.fragment = .ok kp.1) ∧
+      keyed.Pairwise (fun a c => a.1 ≤ c.1) :=
+  cutOrder_spec h
+
+/-- the sort key: the contig coordinate at which the holder's share of the contig begins — `start + start_overhang` for a
+    plus-strand contig that is the holder's first row, `start + end_overhang` for any other strand when it is the last row,
+    else the contig's start -/
+theorem fragment_start_if_trimmed_eq {o : OverlapResult} {f : Fragment} {a b : Bool}
+    (hs : firstIs o f = .ok a) (he : lastIs o f = .ok b) :
+    o.fragmentStartIfTrimmed f =
+      .ok (if f.strand = 1 then (if a then f.start + o.startOverhang else f.start)
+           else (if b then f.start + o.endOverhang else f.start)) :=
+  fragmentStartIfTrimmed_eq hs he
+
+theorem cut_flags_eq (strand : Int) (i last : Nat) :
+    cutFlags strand i last = if strand = -1 then (i == last, i == 0) else (i == 0, i == last) := rfl
+
+/-- Whenever `cut_fragments` returns: with `ordered` the visiting order and `subs` the pieces made (`cutOrder`,
+    `cutSubs`: specification functions from C01), the `j`-th piece is what `trim_fragment` returns for the `j`-th holder
+    with `(keep_start, keep_end) = cutFlags strand j last` — first holder keeps the start, last keeps the end, the two
+    flags swapped for a minus-strand contig — and object id `nextOid + j`; the result it is applied to is the stored one
+    (unchanged unless the same holder id was visited earlier).  Consequently, for a plus- or minus-strand contig, the first
+    piece begins at the contig's first base and the last piece ends at its last base. -/
+theorem cut_keeps_order (b b' : Build) (fnd : Found) (h : cutFragments b fnd = .ok b') :
+    ∃ ordered subs, cutOrder b fnd = .ok ordered ∧ cutSubs b fnd = .ok subs ∧ subs.length = ordered.length ∧
+      (∀ j sid new, ordered[j]? = some sid → subs[j]? = some new →
+        ∃ (bj : Build) (o' : OverlapResult),
+          (∀ s, s ∉ ordered.take j → bj.store.getD s default = b.store.getD s default) ∧
+          (bj.store.getD sid default).o.trimFragment fnd.fragment
+              (cutFlags fnd.fragment.strand j (ordered.length - 1)).1
+              (cutFlags fnd.fragment.strand j (ordered.length - 1)).2 (b.nextOid + j) = .ok (o', new)) ∧
+      ((fnd.fragment.strand = 1 ∨ fnd.fragment.strand = -1) →
+        (∀ new, subs[0]? = some new → new.start = fnd.fragment.start) ∧
+        (∀ new, subs[ordered.length - 1]? = some new → new.stop = fnd.fragment.stop)) :=
+  cut_keeps_order_aux b b' fnd h
+
+/-- together with C01 (`cut_fragments_tiles`): the pieces — one per holder, each cut by `trim_fragment` at the bait
+    coordinates of its holder (M5) — are valid sub-intervals of the contig on the same strand and every base of the contig
+    lies in exactly one of them: the contig is cut exactly at the interior bait boundaries. -/
+theorem cut_pieces (b b' : Build) (fnd : Found) (h : cutFragments b fnd = .ok b') :
+    ∃ subs, cutSubs b fnd = .ok subs ∧ subs.length = fnd.scaffolds.length ∧
+      (∀ s ∈ subs, fnd.fragment.start ≤ s.start ∧ s.stop ≤ fnd.fragment.stop ∧ s.start ≤ s.stop ∧
+        s.name = fnd.fragment.name ∧ s.strand = fnd.fragment.strand) ∧
+      (∀ x, coverCount subs x = if fnd.fragment.start ≤ x ∧ x ≤ fnd.fragment.stop then 1 else 0) ∧
+      ((fnd.fragment.strand = 1 ∨ fnd.fragment.strand = -1) →
+        (∀ new, subs[0]? = some new → new.start = fnd.fragment.start) ∧
+        (∀ new, subs[subs.length - 1]? = some new → new.stop = fnd.fragment.stop)) := by
+  obtain ⟨subs, h1, h2, _, h4, h5⟩ := C01.cut_fragments_tiles b b' fnd h
+  obtain ⟨ordered, subs', _, h1', hl, _, hends⟩ := cut_keeps_order b b' fnd h
+  rw [h1] at h1'; cases h1'
+  refine ⟨subs, h1, h2, h4, h5, fun hst => ?_⟩
+  rw [hl]; exact hends hst
+
+/-- `a:1-100(+)` held by the pieces `s:1-40` and `s:41-100`: visited in that order, cut into 1..40 and 41..100 -/
+def oP (s e : Int) : OverlapResult := { bait := mkBait s e 1, start := 1, stop := 100, rows := [.frag fa], name := "matches".toList }
+theorem lookupP : findOverlaps [.frag fa] (mkBait 1 40 1) = .ok (some (oP 1 40)) ∧
+    findOverlaps [.frag fa] (mkBait 41 100 1) = .ok (some (oP 41 100)) := by constructor <;> decide +kernel
+def bP : Build :=
+  { namer := { autosomePrefix := [] }, nextOid := 20, joinGap := none, err := 3,
+    store := [{ o := oP 41 100, added := true }, { o := oP 1 40, added := true }] }
+def fndP : Found := { fragment := fa, scaffolds := [0, 1] }
+example : cutOrder bP fndP = .ok [1, 0] ∧
+    (cutSubs bP fndP).toOption.map (fun l => l.map (fun s => (s.start, s.stop, s.oid))) = some [(1, 40, 20), (41, 100, 21)] ∧
+    (cutFragments bP fndP).toOption.map (fun b => (b.cuts, b.store.map (fun r => (r.o.start, r.o.stop)))) =
+      some (1, [(41, 100), (1, 40)]) := by decide
+/-- the same contig on the minus strand: the holder of scaffold positions 41..100 gets contig bases 1..60 and is
+    visited first, with the flags swapped -/
+def fam : Fragment := fr 1 "a" 1 100 (-1)
+def oM (s e : Int) : OverlapResult := { bait := mkBait s e 1, start := 1, stop := 100, rows := [.frag fam], name := "matches".toList }
+def bM : Build :=
+  { namer := { autosomePrefix := [] }, nextOid := 20, joinGap := none, err := 3,
+    store := [{ o := oM 1 40, added := true }, { o := oM 41 100, added := true }] }
+example : cutOrder bM { fragment := fam, scaffolds := [0, 1] } = .ok [1, 0] ∧
+    cutFlags (-1) 0 1 = (false, true) ∧ cutFlags (-1) 1 1 = (true, false) ∧
+    (cutSubs bM { fragment := fam, scaffolds := [0, 1] }).toOption.map (fun l => l.map (fun s => (s.start, s.stop))) =
+      some [(1, 60), (61, 100)] ∧
+    (cutFragments bM { fragment := fam, scaffolds := [0, 1] }).toOption.map (fun b => b.cuts) = some 1 := by decide
+
+/-- FINDING: the same contig with AGP orientation `?` (strand 0) cannot be cut: the order and `trim_fragment` treat it
+    like a minus-strand contig, the keep flags are those of a plus-strand contig, both holders keep the whole contig
+    and the QC raises ValueError.  (Outside C02's quantifier: forward or reverse input contigs.) -/
+def errOf {α} : R α → Option Err
+  | .error e => some e
+  | .ok _ => none
+theorem eq_error_of_errOf {α} {x : R α} {e : Err} (h : errOf x = some e) : x = .error e := by
+  cases x with
+  | error e' => simp only [errOf, Option.some.injEq] at h; rw [h]
+  | ok v => simp [errOf] at h
+def fa0 : Fragment := fr 1 "a" 1 100 0
+def o0 (s e : Int) : OverlapResult := { bait := mkBait s e 1, start := 1, stop := 100, rows := [.frag fa0], name := "matches".toList }
+def b0 : Build :=
+  { namer := { autosomePrefix := [] }, nextOid := 20, joinGap := none, err := 3,
+    store := [{ o := o0 1 40, added := true }, { o := o0 41 100, added := true }] }
+theorem strand0_cut_fails :
+    findOverlaps [.frag fa0] (mkBait 1 40 1) = .ok (some (o0 1 40)) ∧
+    findOverlaps [.frag fa0] (mkBait 41 100 1) = .ok (some (o0 41 100)) ∧
+    (cutSubs b0 { fragment := fa0, scaffolds := [0, 1] }).toOption.map (fun l => l.map (fun s => (s.start, s.stop))) =
+      some [(1, 100), (1, 100)] ∧
+    cutFragments b0 { fragment := fa0, scaffolds := [0, 1] } = .error .value := by
+  refine ⟨by decide +kernel, by decide +kernel, by decide, eq_error_of_errOf (by decide)⟩
+
+/-! ## The full property — a named goal, NOT proved
+
+  theorem remap_follows_script
+      (input : List Scaffold) (hin : WellFormedInput input)        -- distinct scaffold names, distinct contig keys and
+                                                                   -- object ids, strands ±1, lengths ≥ 1
+      (t : Rat) (ht : 1 ≤ t) (text : Str) (htext : text denotes t) -- bp per texel; `errLengthOfText text = .ok err` by M1
+      (sc : PretextScript input t)                                 -- MISSING (1): formal model of PretextView's output
+      (prefix_ : Str) (joinGap : Option Gap) :
+      ∃ outs stats, remap input sc.toAgp prefix_ joinGap err = .ok (outs, stats) ∧
+        ∀ piece ∈ sc.pieces,
+          ∃ out ∈ outs.flatMap (·.scaffolds), ∃ i n,
+            -- the bases of `piece` lying more than 3·err from its two ends …
+            -- … are one contiguous run `out.rows[i .. i+n)` (terminal rows possibly cut),
+            CoreRun input piece (3 * err) (out.rows.drop i |>.take n) ∧
+            -- oriented as input orientation × piece orientation (M6), internal gaps those of the input (M6, C18),
+            -- pieces of one Pretext scaffold with the same destination in Pretext order (fuse order, C01 S3 / C07),
+            -- and a cut deeper than 3·err inside a contig splits it exactly at the Pretext coordinate (M5, M7).
+            True
+
+  Missing ingredients, precisely:
+   (1) `PretextScript`: per input scaffold of length `L` a texel count `n ∈ {⌊L/t⌋, ⌈L/t⌉}` (sub-texel scaffolds present
+       or absent), a cut set on the texel grid `{0..n}` with all pieces ≥ 2 texels, the map texel boundary ↦ bp coordinate
+       PretextView writes into its AGP, a permutation / orientation / grouping of the pieces into output scaffolds, the
+       `Painted` tags; and `sc.toAgp : List Scaffold`, the Pretext assembly the CLI parses.  Needed fact about it:
+       consecutive pieces of one input scaffold have baits that tile `[1, L']` with `|L' − L| < t`, and each bait boundary
+       is within `t < err` of the base the cut designates.
+   (2) `L_tiling`, the geometry lemma: for baits tiling a scaffold as in (1), after `find_assembly_overlaps`
+       (C12 `lookup = brute force`, C18 `inv_lookup`, M2) every contig overlapping a piece by `≥ err` is a row of that
+       piece's result; a contig is shared only by results of pieces adjacent on the input scaffold, as the last row of
+       the one and the first row of the other.
+   (3) the resolver induction: over the rounds of `discard_overhanging_fragments` (measure `totalRows`, one row removed
+       per applied premise by M4 / C18 `inv_step_discardStart/End`) the invariant "every row removed from a result lay
+       within 3·err of the bait end, every contig still shared is shared by adjacent pieces" is kept: by M3 a premise with
+       what-if overhang `≤ −3·err` never improves, by M4 at most one holder per contig and round loses it and never the
+       only holder; this also needs the registry link L2/L3 that C01 lists as missing (holders list = results whose rows
+       contain the contig, kept in step by `applyFixBookkeeping`).
+   (4) completion without error: `cut_fragments`' QC passes for the remaining shared contigs — from (2),(3) the holders of
+       a contig are adjacent pieces whose baits abut, so by M5/M7 their pieces abut at the bait coordinates and by C01
+       `qc_tiles` (converse direction, not yet proved) the QC accepts; `make_scaffold_name` / `label_scaffold` /
+       `ChrNamer` do not raise on the tags a `PretextScript` can carry (C08–C10 material).
+-/
+
 end AgpTpf.C02
